@@ -664,26 +664,48 @@ class Enumerator:
                 return self._for_over_generator(s, st, callee)
 
         def k(st0, it):
-            if isinstance(it, ast.GeneratorExp) and len(it.generators) == 1 and not it.generators[0].is_async \
-                    and not getattr(s, "_from_genexp", False):
-                # for x in (elt for v in xs if c): body   ==   for v in xs: if not c: continue; x = elt; body   (lazy)
-                g = it.generators[0]
-                bound = {t.id for t in ast.walk(g.target) if isinstance(t, ast.Name)}
+            def _has_own_break(stmts):
+                for x_ in stmts:
+                    if isinstance(x_, ast.Break):
+                        return True
+                    if isinstance(x_, (ast.For, ast.While, ast.AsyncFor, ast.FunctionDef, ast.AsyncFunctionDef, ast.ClassDef)):
+                        if _has_own_break(getattr(x_, "orelse", [])):
+                            return True
+                        continue
+                    for fld in ("body", "orelse", "finalbody"):
+                        if _has_own_break(getattr(x_, fld, []) or []):
+                            return True
+                    for h_ in getattr(x_, "handlers", []) or []:
+                        if _has_own_break(h_.body):
+                            return True
+                return False
+
+            if isinstance(it, ast.GeneratorExp) and not any(g_.is_async for g_ in it.generators) \
+                    and not getattr(s, "_from_genexp", False) \
+                    and (len(it.generators) == 1 or (not _has_own_break(s.body) and not s.orelse)):
+                # for x in (elt for v in xs if c): body   ==   for v in xs: if not c: continue; x = elt; body   (lazy);
+                # several `for` clauses nest (allowed when the body has no break of its own and there is no else)
+                bound = {t.id for g_ in it.generators for t in ast.walk(g_.target) if isinstance(t, ast.Name)}
                 ren = {b: f"__g{getattr(s, 'lineno', 0)}_{b}" for b in bound}
 
                 class _R(ast.NodeTransformer):
                     def visit_Name(self, nd):
                         return ast.Name(id=ren[nd.id], ctx=nd.ctx) if nd.id in ren else nd
 
-                tgt = _R().visit(_deepcopy(g.target))
-                body = [ast.If(test=ast.UnaryOp(op=ast.Not(), operand=_R().visit(_deepcopy(c))), body=[ast.Continue()], orelse=[]) for c in g.ifs]
-                body.append(ast.Assign(targets=[s.target], value=_R().visit(_deepcopy(it.elt))))
-                new = ast.For(target=tgt, iter=g.iter, body=body + list(s.body), orelse=list(s.orelse))
-                for x_ in body:
-                    ast.copy_location(x_, s)
+                inner = [ast.Assign(targets=[s.target], value=_R().visit(_deepcopy(it.elt)))] + list(s.body)
+                new = None
+                for gi, g in reversed(list(enumerate(it.generators))):
+                    guards = [ast.If(test=ast.UnaryOp(op=ast.Not(), operand=_R().visit(_deepcopy(c))), body=[ast.Continue()], orelse=[]) for c in g.ifs]
+                    iter_ = g.iter if gi == 0 else _R().visit(_deepcopy(g.iter))
+                    new = ast.For(target=_R().visit(_deepcopy(g.target)), iter=iter_, body=guards + inner,
+                                  orelse=list(s.orelse) if gi == 0 else [])
+                    new._from_genexp = True
+                    inner = [new]
+                for x_ in ast.walk(new):
+                    if isinstance(x_, (ast.stmt, ast.expr)) and not hasattr(x_, "lineno"):
+                        ast.copy_location(x_, s)
                 ast.copy_location(new, s)
                 ast.fix_missing_locations(new)
-                new._from_genexp = True
                 return self.s_For(new, st0)
             literal = None
             if isinstance(it, (ast.Tuple, ast.List)) and not any(isinstance(e, ast.Starred) for e in it.elts):
@@ -1444,6 +1466,9 @@ class Enumerator:
 
     def _inline(self, callee: FuncInfo, call: ast.Call, st: St, k, ph):
         env = self._bind_params(callee, call, st)
+        if callee.parent is not None and st.frames and callee.parent is st.frames[-1]:
+            # a closure called by the function that defines it: its free variables are that function's locals
+            env = {**{k_: v_ for k_, v_ in st.env.items() if not k_.startswith("$")}, **env}
         caller_env, caller_frames = st.env, st.frames
         st_in = st.emit(Ev("enter", N(callee.qualname), call, st.fn, {"callee": callee}))
         st_in = st_in.with_env(env, caller_frames + (callee,))
